@@ -299,6 +299,11 @@ def run(ctx):
         ("elitdivm", "da * (2 / 3 as float64)", lambda v: v["da"] * (2.0 / 3.0)),
         ("elitmul", "(100000 as float64) * 100000", lambda v: 1e10),
         ("elitadd", "(2000000000 as float64) + 2000000000", lambda v: 4e9),
+        # an explicit widening cast of one operand decides the width of the arithmetic
+        ("ewidemul", "(big1 as int64) * big2", lambda v: v["big1"] * v["big2"]),
+        ("ewideadd", "(big1 as int64) * big2 + big2", lambda v: v["big1"] * v["big2"] + v["big2"]),
+        ("ewidesub", "(ia - big1 as int64) * big2 - big1", lambda v: (v["ia"] - v["big1"]) * v["big2"] - v["big1"]),
+        ("ewideumul", "(ubig as uint64) * ubig", lambda v: v["ubig"] * v["ubig"]),
         # two arrays of the same type whose dimension names are in a different order, dimension chosen at run time
         ("edimrt", "dimensionIndex(arr, dimname) * 10 + dimensionIndex(arrt, dimname)", lambda v: ({"row": 0, "col": 1}[v["dimname"]]) * 10 + {"col": 0, "row": 1}[v["dimname"]]),
         ("esizert", "size(arr, dimname) * 100 + size(arrt, dimname)", lambda v: ({"row": 2, "col": 3}[v["dimname"]]) * 100 + {"col": 4, "row": 5}[v["dimname"]]),
@@ -307,9 +312,12 @@ def run(ctx):
           ("eswo", "opt", [("int32 x", "x * 2"), ("_", "7")], lambda v: 7 if v["opt"] is None else v["opt"][1] * 2),
           # a union defined by a named type (the generated union class carries the alias name), and a nullable union
           ("eswn", "nun", [("int32 i", "i + 2"), ("string s", "0 - 2")], lambda v: (v["nun"][1] + 2) if v["nun"][0] == 0 else -2),
+          # a pattern variable with the name of a record field is the payload, not the field
+          ("eswsh", "un", [("int32 ia", "ia * 2"), ("string s", "0 - 5")], lambda v: (v["un"][1] * 2) if v["un"][0] == 0 else -5),
+          ("eswsho", "opt", [("int32 ib", "ib + 1"), ("_", "ib")], lambda v: v["ib"] if v["opt"] is None else v["opt"][1] + 1),
           ("eswnu", "nou", [("int32 i", "i + 3"), ("string s", "0 - 3"), ("_", "9")], lambda v: 9 if v["nou"] is None else ((v["nou"][1] + 3) if v["nou"][0] == 0 else -3))]
     emodel = ("ENamedUn: [int32, string]\nEInner: !record\n  fields:\n    p: int32\n    q: int32\nEx: !record\n  fields:\n    ia: int32\n    ib: int32\n    ic: int32\n    da: float64\n    db: float64\n    dc: float64\n"
-              "    vec: int32*\n    arr: 'int32[row, col]'\n    farr: 'int32[2, 2]'\n    mp: string->int32\n    inner: EInner\n    un: [int32, string]\n    opt: int32?\n    nun: ENamedUn\n    nou: [null, int32, string]\n    arrt: 'int32[col, row]'\n    dimname: string\n  computedFields:\n")
+              "    vec: int32*\n    arr: 'int32[row, col]'\n    farr: 'int32[2, 2]'\n    mp: string->int32\n    inner: EInner\n    un: [int32, string]\n    opt: int32?\n    nun: ENamedUn\n    nou: [null, int32, string]\n    arrt: 'int32[col, row]'\n    dimname: string\n    big1: int32\n    big2: int32\n    ubig: uint32\n  computedFields:\n")
     for nme, src, _ in EXPRS:
         emodel += "    %s: '%s'\n" % (nme, src.replace("'", "''"))
     for nme, tgt, cases, _ in SW:
@@ -344,7 +352,7 @@ def run(ctx):
                         ("arr", A(P("int32"), (("row", None), ("col", None)))), ("farr", A(P("int32"), ((None, 2), (None, 2)))), ("mp", M(P("string"), P("int32"))),
                         ("inner", N("EInner")), ("un", U(((None, P("int32")), (None, P("string"))))), ("opt", Opt(P("int32"))),
                         ("nun", N("ENamedUn")), ("nou", U(((None, P("int32")), (None, P("string"))), True)),
-                        ("arrt", A(P("int32"), (("col", None), ("row", None)))), ("dimname", P("string"))]),
+                        ("arrt", A(P("int32"), (("col", None), ("row", None)))), ("dimname", P("string")), ("big1", P("int32")), ("big2", P("int32")), ("ubig", P("uint32"))]),
              Al("ENamedUn", U(((None, P("int32")), (None, P("string"))))),
              Proto("PEx", [("items", S(N("Ex")))])]
     hp = Pkg("Cf", defs)
@@ -418,8 +426,10 @@ def run(ctx):
         nou = None if r.random() < 0.34 else ((0, r.randint(-1000, 1000)) if r.random() < 0.5 else (1, "u%d" % r.randint(0, 9)))
         arrt = [r.randint(-9, 9) for _ in range(20)]
         dimname = r.choice(["row", "col"])
-        items.append([ia, ib, ic, da, db, dc, vec, ((2, 3), arr), ((2, 2), farr), mp, inner, un, opt, nun, nou, ((4, 5), arrt), dimname])
-        envs.append(dict(ia=ia, ib=ib, ic=ic, da=da.value, db=db.value, dc=dc.value, vec=vec, arr=arr, farr=farr, mp=mp, inner=inner, un=un, opt=opt, nun=nun, nou=nou, arrt=arrt, dimname=dimname))
+        big1, big2, ubig = r.randint(50000, 90000), r.randint(50000, 90000), r.randint(70000, 4000000000)
+        items.append([ia, ib, ic, da, db, dc, vec, ((2, 3), arr), ((2, 2), farr), mp, inner, un, opt, nun, nou, ((4, 5), arrt), dimname, big1, big2, ubig])
+        envs.append(dict(ia=ia, ib=ib, ic=ic, da=da.value, db=db.value, dc=dc.value, vec=vec, arr=arr, farr=farr, mp=mp, inner=inner, un=un, opt=opt, nun=nun, nou=nou, arrt=arrt, dimname=dimname,
+                         big1=big1, big2=big2, ubig=ubig))
     pr, rows_cpp, res, rows_py = run_both("PEx", items)
     if rows_cpp is None or rows_py is None:
         ctx.violation("driver-failed:%s" % ("cpp" if rows_cpp is None else "py"), "Ex: computed-field driver failed: %s %s" % (pr.stderr[-300:], res.get("error")), {"case_dir": root})
